@@ -40,7 +40,60 @@ type tracer struct {
 	terminate      chan struct{}
 	done           chan struct{}
 	subscribers    []chan ITrace
-	senders        sync.WaitGroup
+	senders        senderGroup
+}
+
+// senderGroup counts registered senders. Unlike a sync.WaitGroup it tolerates
+// a sender registering while (or after) the tracer waits for the count to drop
+// to zero: sync.WaitGroup panics ("WaitGroup is reused before previous Wait has
+// returned") when that happens, and nodes do register senders after the
+// context has been cancelled. Once wait has returned, later registrations get
+// a handle that does nothing.
+type senderGroup struct {
+	mu     sync.Mutex
+	n      int
+	closed bool
+	zero   chan struct{}
+}
+
+type noSender struct{}
+
+func (noSender) Done() {}
+
+func (g *senderGroup) add() ISenderHandle {
+	g.mu.Lock()
+	defer g.mu.Unlock()
+	if g.closed {
+		return noSender{}
+	}
+	g.n++
+	return g
+}
+
+// Done indicates that a registered sender has terminated
+func (g *senderGroup) Done() {
+	g.mu.Lock()
+	defer g.mu.Unlock()
+	g.n--
+	if g.n == 0 && g.zero != nil {
+		close(g.zero)
+		g.zero = nil
+		g.closed = true
+	}
+}
+
+// wait blocks until no sender is registered and closes the group
+func (g *senderGroup) wait() {
+	g.mu.Lock()
+	if g.n == 0 {
+		g.closed = true
+		g.mu.Unlock()
+		return
+	}
+	zero := make(chan struct{})
+	g.zero = zero
+	g.mu.Unlock()
+	<-zero
 }
 
 func NewTracer(ctx context.Context) ITracer {
@@ -100,7 +153,7 @@ func (t *tracer) run(ctx context.Context) {
 			termination.Do(func() {
 				go func() {
 					// Wait until all senders have terminated
-					t.senders.Wait()
+					t.senders.wait()
 					// Send an internal termination message
 					t.terminate <- struct{}{}
 				}()
@@ -164,8 +217,7 @@ func (t *tracer) Send(trace ITrace) {
 }
 
 func (t *tracer) RegisterSender() ISenderHandle {
-	t.senders.Add(1)
-	return &t.senders
+	return t.senders.add()
 }
 
 func (t *tracer) Done() chan struct{} {
